@@ -181,6 +181,39 @@ def check(ctx):
         ctx.check(any(R.dominates(rb, b) for rb in run_blocks), "C02.b", "%s:insert-after-run" % fk, R.loc(b),
                   "re-insertion happens after the run", "storage.insert is not dominated by callback.run")
 
+    # the storage methods do what the runner relies on: take() moves the stored callback out, insert() stores its argument
+    NMs = A.names(prog)
+    for role, nm in (("take", NMs["storage_take"]), ("insert", NMs["storage_insert"])):
+        ms = [b_ for b_ in prog.bodies if lib.tail(b_.path, 2) == nm]
+        for m in ms:
+            ctx.touch(m)
+            if role == "take":
+                tk = [b for b, t, fr in m.iter_calls() if fr and lib.tail(mir.fn_name(fr), 2) in ("Option::take", "mem::take", "mem::replace")
+                      and any(o[0] == "arg" and o[1] == 1 for o in origins(m, t["args"][0]))]
+                ok = len(tk) == 1 and any(st_["k"] == "assign" and st_["place"]["l"] == 0 for _, _, st_ in m.iter_stmts()) or \
+                    (len(tk) == 1 and m.blocks[tk[0]]["term"]["dest"]["l"] == 0)
+                ctx.check(ok, "C02.b", "%s:moves-the-stored-callback-out" % lib.fkey(m), "%s:%d" % (m.file, m.line),
+                          "returns Option::take of its own field", "the storage's take() does not move the stored callback out of its own field")
+            else:
+                ws = [(b, i, rv) for (b, i, adt, f, rv) in lib.field_writes(m)]
+                good = []
+                for (b, i, rv) in ws:
+                    ag = rv.get("agg")
+                    if ag is None and "use" in rv:
+                        for o in origins(m, rv["use"]):
+                            if o[0] == "agg" and len(o) == 3:
+                                ag = m.blocks[o[1]]["stmts"][o[2]]["rv"]["agg"]
+                    if ag and ag.get("vname") == "Some" and lib.originates_from_arg(m, ag["ops"][0], 2):
+                        good.append(b)
+                w = lib.path_to_return_avoiding(m, [0], good)
+                ctx.check(bool(good) and w is None, "C02.b", "%s:stores-its-argument" % lib.fkey(m), "%s:%d" % (m.file, m.line),
+                          "every path stores Some(<argument>) into the storage", "the storage's insert() does not store its argument on every path (the callback would be lost)")
+    # the RUN event really runs the stored closure and hands it the cleanup (shared with C04.b)
+    import c04 as _c04
+    import core as _core0
+    nr = _core0.adopt(ctx, _c04, lambda o: o["rule"] == "C04.b" and A.names(prog)["callback_run"] in o["key"], "C02.a")
+    ctx.floor("C02.a", nr, 1, "shared obligation: SystemCommandCallback::run invokes the boxed closure with the cleanup (C04.b)")
+
     # --- C02.c nothing postponed is lost ---
     NM = A.names(prog)
     q = NM["queue_type"]
@@ -275,6 +308,15 @@ def check(ctx):
     for (b, i, st) in incs:
         ctx.check(R.dominates(some_t, b) and any(path_hits(R, b, rb) for rb in run_blocks), "C02.c", "%s:counter-incremented-on-run-path-only" % fk, R.loc(b, i),
                   "counter increment is on the run path", "tree counter is modified outside the run path")
+    for (b, i, st) in incs:
+        # the non-constant write is `counter + 1`
+        cand = [st["rv"]]
+        src = op_place(st["rv"]["use"]) if "use" in st["rv"] else None
+        if src is not None:
+            cand += [d[3] for d in R.defs.get(src["l"], []) if d[0] == "stmt"]
+        plus1 = any("bin" in c and c["bin"]["op"] in ("Add", "AddWithOverflow", "AddUnchecked") and lib.const_val(c["bin"]["r"]) == 1 for c in cand)
+        ctx.check(plus1, "C02.c", "%s:counter-increment-is-plus-one" % fk, R.loc(b, i), "the run path adds 1 to the tree counter",
+                  "the run path's write to the tree counter is not `counter + 1` (the root of a tree would not be recognised, or every level would look like the root)")
     root_tests = [b for (b, cv, eq_t, ne_t, _) in idx_checks if any(R.dominates(rb, b) for rb in run_blocks)]
     for (b, i, st) in incs:
         w = lib.path_to_return_avoiding(R, [b], root_tests) if root_tests else [b]
